@@ -19,6 +19,7 @@ type Scope struct {
 	pkg   *types.Package    // for resolving package-level names
 	cells bool              // resolve names of local variables of fr
 	loopAlloc Term          // allocation counter at the entry of the enclosing loop
+	loopEntry *State        // state at the entry of the enclosing loop (for loopOld)
 	nquant int
 }
 
@@ -306,6 +307,8 @@ func (fr *Frame) evalBinary(sc *Scope, x *EBin) Val {
 			eq = fr.nilTest(a)
 		case isNilConst(a):
 			eq = fr.nilTest(b)
+		case a.K == KKey && b.K == KKey:
+			eq = Eq(a.C[0], b.C[0])
 		default:
 			a, b = fr.coerce(a, b), fr.coerce(b, a)
 			if a.K == KNormal && b.K == KNormal && len(a.C) == 1 && len(b.C) == 1 && a.C[0].Sort != b.C[0].Sort {
@@ -759,6 +762,15 @@ func (fr *Frame) evalCall(sc *Scope, x *ECall) Val {
 			cfail("fresh() needs a pre-state")
 		}
 		return scalar(boolT, And(Not(Eq(v.C[0], Nil)), fr.isFreshSince(fr.refOf(v), sc.old.alloc)))
+	case "loopOld":
+		// loopOld(e): the value of e when the enclosing loop was entered
+		argn(1)
+		if sc.loopEntry == nil {
+			cfail("loopOld() outside a loop clause")
+		}
+		n := *sc
+		n.st = sc.loopEntry
+		return fr.evalExpr(&n, x.Args[0])
 	case "loopFresh":
 		// loopFresh(x): x's object was allocated after the enclosing loop was entered
 		argn(1)
@@ -809,6 +821,58 @@ func (fr *Frame) evalCall(sc *Scope, x *ECall) Val {
 			cfail("unknown type in ptrOf")
 		}
 		return scalar(types.NewPointer(t), v.C[1])
+	case "padArray":
+		// padArray(s, N): the [N]byte value holding s's bytes followed by zeros (Go: var k [N]byte; copy(k[:], s))
+		// padArray(s, N, p): additionally byte p holds byte(len(s))
+		if len(x.Args) != 2 && len(x.Args) != 3 {
+			cfail("padArray expects 2 or 3 arguments")
+		}
+		sv := fr.evalExpr(sc, x.Args[0])
+		nv := fr.evalExpr(sc, x.Args[1])
+		if nv.K != KConst {
+			cfail("padArray: constant size expected")
+		}
+		n := nv.Big.(*bigInt).v.Int64()
+		arr := fr.ctx.Fresh("pad", ArrSort(SInt, SBV8))
+		fr.top.nbound++
+		j := Term{fmt.Sprintf("j!q%d", fr.top.nbound), SInt}
+		lim := Ite(ILe(sv.Len(), IntT(n)), sv.Len(), IntT(n))
+		inner := Ite(InRange(j, IntT(0), lim), fr.byteAt(sc, sv, j), BV(0, 8))
+		if len(x.Args) == 3 {
+			pv := fr.evalExpr(sc, x.Args[2])
+			if pv.K != KConst {
+				cfail("padArray: constant position expected")
+			}
+			inner = Ite(Eq(j, IntBig(pv.Big.(*bigInt).v)), Int2BV(sv.Len(), 8), inner)
+		}
+		fr.ctx.Assume(Forall([]Term{j}, Eq(Select(arr, j), inner), Select(arr, j)))
+		return Val{K: KNormal, T: types.NewArray(types.Typ[types.Uint8], n), C: []Term{arr}}
+	case "keyOf":
+		// keyOf(m, x): x as a key of map m
+		argn(2)
+		mv := fr.evalExpr(sc, x.Args[0])
+		mt, ok := mv.T.Underlying().(*types.Map)
+		if !ok {
+			cfail("keyOf() on non-map")
+		}
+		kv := fr.evalExpr(sc, x.Args[1])
+		return Val{K: KKey, T: mt.Key(), C: []Term{fr.mapKey(sc.st, mt, fr.coerceTo(kv, mt.Key()))}}
+	case "forallkey":
+		// forallkey(k, m, P): for every possible key k of map m
+		argn(3)
+		id, ok := x.Args[0].(*EIdent)
+		if !ok {
+			cfail("forallkey: identifier expected")
+		}
+		mv := fr.evalExpr(sc, x.Args[1])
+		mt, ok := mv.T.Underlying().(*types.Map)
+		if !ok {
+			cfail("forallkey() on non-map")
+		}
+		fr.top.nbound++
+		bv := Term{fmt.Sprintf("%s!q%d", id.Name, fr.top.nbound), fr.mapKeySort(mt)}
+		body := fr.evalBool(sc.with(id.Name, Val{K: KKey, T: mt.Key(), C: []Term{bv}}), x.Args[2])
+		return scalar(boolT, Forall([]Term{bv}, body))
 	case "dynNonNil":
 		// dynNonNil(x): the interface value x is not nil and does not hold a nil pointer
 		argn(1)
